@@ -26,36 +26,8 @@ import (
 )
 
 // sanitize keeps a random design inside the envelope of the recorded findings that
-// designgen.DefaultOptions can still draw: a primitive payload mapped to a header, Enum on sized-int array elements.
+// designgen.DefaultOptions can still draw: a primitive payload mapped to a header.
 func sanitize(d *dg.Design) {
-	// Enum(1,2,3) on array elements of a sized integer type panics in the example generator
-	var walk func(t *dg.Type)
-	walk = func(t *dg.Type) {
-		for _, f := range t.Attrs {
-			walk(&f.A.T)
-		}
-		if t.Key != nil {
-			walk(&t.Key.T)
-		}
-		if t.Elem != nil {
-			if t.Kind == "array" && t.Elem.T.Kind == "prim" && sizedInt(t.Elem.T.Prim) && t.Elem.V != nil && len(t.Elem.V.Enum) > 0 {
-				t.Elem.V = &dg.Validation{Min: dg.Fp(1), Max: dg.Fp(3)}
-			}
-			walk(&t.Elem.T)
-		}
-	}
-	for _, ut := range d.Types {
-		walk(&ut.Base)
-	}
-	for _, s := range d.Services {
-		for _, m := range s.Methods {
-			for _, a := range []*dg.Attr{m.Payload, m.Result} {
-				if a != nil {
-					walk(&a.T)
-				}
-			}
-		}
-	}
 	for _, s := range d.Services {
 		for _, m := range s.Methods {
 			if m.HTTP != nil && m.Payload != nil && m.Payload.T.Kind != "object" && m.Payload.T.Kind != "user" && len(m.HTTP.Headers) > 0 {
@@ -297,7 +269,11 @@ func main() {
 		cases = append(cases, coveringDesigns()...)
 		dr := rng.Fork()
 		for i := 0; i < nRandom; i++ {
-			d := dg.Random(dr.Fork(), dg.DefaultOptions(), i)
+			// UintEnums: Enum(1,2,3) on UInt / sized-int array elements was kept out of the envelope
+			// until goa converted enum values to the element type (fix 49bc0fa); it is an ordinary feature now
+			ropts := dg.DefaultOptions()
+			ropts.UintEnums = true
+			d := dg.Random(dr.Fork(), ropts, i)
 			sanitize(d)
 			cases = append(cases, DCase{Stream: "random", Name: d.Name, Design: d})
 		}
